@@ -15,6 +15,7 @@ import (
 	"strings"
 	"sync"
 	"sync/atomic"
+	"syscall"
 	"testing"
 	"time"
 
@@ -33,6 +34,9 @@ type tornSink struct {
 	buf     []byte
 	writes  int
 	syncs   int32
+	// syncFails: Sync is attempted like any other and then reports EINVAL - what fsync says on a terminal, a pipe or
+	// a socket. Nothing that was written is affected by it, and nothing written later is either.
+	syncFails bool
 }
 
 // c04MutexSink: a sink with a mutex of its own for another purpose (rotation, say); the methods are promoted.
@@ -63,6 +67,9 @@ func (s *tornSink) Sync() error {
 	runtime.Gosched()
 	atomic.AddInt32(&s.syncs, 1)
 	atomic.StoreInt32(&s.inUse, 0)
+	if s.syncFails {
+		return syscall.EINVAL
+	}
 	return nil
 }
 
@@ -72,12 +79,13 @@ type c04Op struct {
 }
 
 type c04Program struct {
-	Minimal  bool      `json:"minimalLines,omitempty"` // lock/combine only: no time, caller or context, so that lines can be very short
-	Topology string    `json:"topology"`
-	BufSize  int       `json:"bufSize"`
-	Procs    int       `json:"gomaxprocs"`
-	Refl     bool      `json:"customReflectedEncoder,omitempty"` // reflected values go through a user-supplied encoding/json encoder (newline-terminated output)
-	Scripts  [][]c04Op `json:"goroutines"`
+	Minimal    bool      `json:"minimalLines,omitempty"` // lock/combine only: no time, caller or context, so that lines can be very short
+	Topology   string    `json:"topology"`
+	BufSize    int       `json:"bufSize"`
+	Procs      int       `json:"gomaxprocs"`
+	Refl       bool      `json:"customReflectedEncoder,omitempty"` // reflected values go through a user-supplied encoding/json encoder (newline-terminated output)
+	SyncEINVAL bool      `json:"sinkSyncReportsEINVAL,omitempty"`  // the sinks' Sync reports EINVAL every time (a terminal or pipe)
+	Scripts    [][]c04Op `json:"goroutines"`
 }
 
 var c04Cancelled = func() context.Context {
@@ -174,10 +182,11 @@ type c04Stream struct {
 
 func genC04Program(t *rapid.T) *c04Program {
 	p := &c04Program{
-		Topology: rapid.SampledFrom([]string{"lock", "combine", "file", "buffered", "tee", "shared-locked", "file-twice", "tee-dropper"}).Draw(t, "topology"),
-		BufSize:  rapid.SampledFrom([]int{64, 128, 256, 1024, 4096}).Draw(t, "bufSize"),
-		Procs:    rapid.SampledFrom([]int{1, 2, 4, 16}).Draw(t, "gomaxprocs"),
-		Refl:     rapid.IntRange(0, 3).Draw(t, "customReflectedEncoder") == 0,
+		Topology:   rapid.SampledFrom([]string{"lock", "combine", "file", "buffered", "tee", "shared-locked", "file-twice", "tee-dropper"}).Draw(t, "topology"),
+		BufSize:    rapid.SampledFrom([]int{64, 128, 256, 1024, 4096}).Draw(t, "bufSize"),
+		Procs:      rapid.SampledFrom([]int{1, 2, 4, 16}).Draw(t, "gomaxprocs"),
+		Refl:       rapid.IntRange(0, 3).Draw(t, "customReflectedEncoder") == 0,
+		SyncEINVAL: rapid.IntRange(0, 3).Draw(t, "sinkSyncReportsEINVAL") == 0,
 	}
 	if p.Topology == "lock" || p.Topology == "combine" {
 		p.Minimal = rapid.IntRange(0, 2).Draw(t, "minimalLines") == 0
@@ -227,7 +236,7 @@ func c04Run(t interface{ Fatalf(string, ...any) }, p *c04Program) (alternations 
 	clk := &handClock{}
 	var bws *zapcore.BufferedWriteSyncer
 	mkSink := func(name string, console bool) *tornSink {
-		s := &tornSink{}
+		s := &tornSink{syncFails: p.SyncEINVAL}
 		streams = append(streams, &c04Stream{name: name, console: console, sink: s, data: func() []byte { return s.buf }})
 		return s
 	}
